@@ -1008,4 +1008,666 @@ theorem parseStringBody_T (T : Tr) (s : St) (hc : LC T (parseStringBody s)) :
   · intro pn s1 h1
     exact Or.inl (Res.stop_bind _ (required_empty _ _ _ h1))
 
+/-! ## §4 `SkipEntry` is raised only by `parse_command` (comment) and `parse_entry_body` (entry not
+wanted), in both cases in front of an unread character -/
+
+def NoSkip {α : Type} : Res α → Prop
+  | .fail .skip _ => False
+  | _ => True
+
+theorem NoSkip.bind {α β : Type} {r : Res α} {h : α → St → Res β} (hr : NoSkip r)
+    (hh : ∀ x s, NoSkip (h x s)) : NoSkip (r.bind h) := by
+  cases r with
+  | ok a s => exact hh a s
+  | fail a s => cases a <;> first | exact hr | trivial
+
+theorem getToken_noSkip (pats : List Pat) (s : St) : NoSkip (getToken pats s) := by
+  unfold getToken
+  simp only
+  split
+  · trivial
+  · split <;> trivial
+
+theorem getToken_none_rest {pats : List Pat} {s s' : St} (h : getToken pats s = .ok none s') :
+    s'.rest ≠ [] := by
+  unfold getToken at h
+  simp only at h
+  split at h
+  · cases h
+  · rename_i h0
+    split at h
+    · cases h; exact h0
+    · cases h
+
+theorem required_noSkip (pats : List Pat) (desc : String) (s : St) : NoSkip (required pats desc s) := by
+  rw [required_bind]
+  refine (getToken_noSkip pats s).bind ?_
+  intro o s'; cases o <;> trivial
+
+theorem strLoop_noSkip (fuel : Nat) (quoted : Bool) (d : Nat) (acc : Str) (s : St) :
+    NoSkip (strLoop fuel quoted d acc s) := by
+  induction fuel generalizing d acc s with
+  | zero => trivial
+  | succ fuel ih =>
+    rw [strLoop_succ]
+    split
+    · trivial
+    · unfold strTail
+      split
+      · split
+        · trivial
+        · exact ih _ _ _
+      · split
+        · split <;> trivial
+        · exact ih _ _ _
+      · trivial
+
+theorem handleError_noSkip (s : St) (e : Err) : NoSkip (handleError s e) := by
+  unfold handleError; split <;> trivial
+
+theorem substituteMacro_noSkip (name : Str) (s : St) : NoSkip (substituteMacro name s) := by
+  unfold substituteMacro
+  split
+  · trivial
+  · split
+    · have := handleError_noSkip s ⟨.undefinedMacro name, some s.ln⟩
+      cases hr : handleError s ⟨.undefinedMacro name, some s.ln⟩ with
+      | ok u s' => trivial
+      | fail a s' => rw [hr] at this; cases a <;> first | exact this | trivial
+    · trivial
+
+theorem parseValuePart_noSkip (s : St) : NoSkip (parseValuePart s) := by
+  rw [parseValuePart_bind]
+  refine (required_noSkip _ _ s).bind ?_
+  intro pv s'
+  unfold vpCont
+  split
+  · exact (strLoop_noSkip _ _ _ _ _).bind (fun _ _ => trivial)
+  · trivial
+  · exact substituteMacro_noSkip _ _
+
+theorem parseValueLoop_noSkip (fuel : Nat) (parts : List Str) (s : St) :
+    NoSkip (parseValueLoop fuel parts s) := by
+  induction fuel generalizing parts s with
+  | zero => trivial
+  | succ fuel ih =>
+    rw [parseValueLoop_succ]
+    refine (parseValuePart_noSkip s).bind ?_
+    intro part s'
+    refine (getToken_noSkip _ s').bind ?_
+    intro o s''
+    cases o with
+    | none => trivial
+    | some t => exact ih _ _
+
+theorem parseValue_noSkip (s : St) : NoSkip (parseValue s) := by
+  rw [parseValue_bind]
+  exact (parseValueLoop_noSkip _ _ s).bind (fun _ _ => trivial)
+
+theorem parseField_noSkip (s : St) : NoSkip (parseField s) := by
+  rw [parseField_bind]
+  refine (getToken_noSkip _ s).bind ?_
+  intro o s'
+  cases o with
+  | none => trivial
+  | some pn => exact (required_noSkip _ _ _).bind (fun _ s'' => parseValue_noSkip s'')
+
+theorem parseEntryFields_noSkip (fuel : Nat) (s : St) : NoSkip (parseEntryFields fuel s) := by
+  induction fuel generalizing s with
+  | zero => trivial
+  | succ fuel ih =>
+    rw [parseEntryFields_succ]
+    refine (parseField_noSkip _).bind ?_
+    intro _ s'
+    refine (getToken_noSkip _ _).bind ?_
+    intro o s''
+    cases o with
+    | none => trivial
+    | some t => exact ih _
+
+theorem parseEntryFields_ok_rest (fuel : Nat) (s s' : St) (u : Unit)
+    (h : parseEntryFields fuel s = .ok u s') : s'.rest ≠ [] := by
+  induction fuel generalizing s with
+  | zero => cases h
+  | succ fuel ih =>
+    rw [parseEntryFields_succ] at h
+    cases hp : parseField { s with curFieldName := none, curValue := [] } with
+    | fail a s1 => rw [hp] at h; cases h
+    | ok u1 s1 =>
+      rw [hp] at h
+      simp only [Res.bind, efCont] at h
+      cases hg : getToken [.lit ','] (efUpd s1) with
+      | fail a s2 => rw [hg] at h; cases h
+      | ok o s2 =>
+        rw [hg] at h
+        cases o with
+        | none =>
+          simp only at h
+          cases h
+          exact getToken_none_rest hg
+        | some t => exact ih _ h
+
+theorem parseStringBody_noSkip (s : St) : NoSkip (parseStringBody s) := by
+  rw [parseStringBody_bind]
+  refine (required_noSkip _ _ s).bind ?_
+  intro pn s1
+  refine (required_noSkip _ _ _).bind ?_
+  intro _ s2
+  exact (parseValue_noSkip s2).bind (fun _ _ => trivial)
+
+/-- a `SkipEntry` out of `parse_entry_body` is raised in front of an unread character -/
+theorem parseEntryBody_skip_rest (paren : Bool) (s s' : St) (h : parseEntryBody paren s = .fail .skip s') :
+    s'.rest ≠ [] := by
+  rw [parseEntryBody_bind] at h
+  cases hr : required [if paren then .keyParen else .keyBrace] "entry key" s with
+  | fail a s1 =>
+    have := required_noSkip [if paren then .keyParen else .keyBrace] "entry key" s
+    rw [hr] at h this
+    cases h
+    exact this.elim
+  | ok pk s1 =>
+    rw [hr] at h
+    simp only [Res.bind] at h
+    cases hf : parseEntryFields (s1.rest.length + 2) { s1 with curKey := some pk.2 } with
+    | fail a s2 =>
+      have := parseEntryFields_noSkip (s1.rest.length + 2) { s1 with curKey := some pk.2 }
+      rw [hf] at h this
+      cases h
+      exact this.elim
+    | ok u s2 =>
+      rw [hf] at h
+      have h2 := parseEntryFields_ok_rest _ _ _ _ hf
+      simp only [wantOrSkip] at h
+      split at h
+      · cases h
+      · cases h; exact h2
+
+/-! ## §5 `parse_command` -/
+
+def cmdKind (cl : Str) : CmdKind :=
+  if cl = "string".toList then .string else if cl = "preamble".toList then .preamble else .entry
+
+def cmdBody (kind : CmdKind) (paren : Bool) (s : St) : Res Unit :=
+  match kind with
+  | .string => parseStringBody s
+  | .preamble => parseValue s
+  | .entry => parseEntryBody paren s
+
+def cmdMk (kind : CmdKind) (command : Str) (s : St) : Cmd :=
+  match kind with
+  | .string => Cmd.string
+  | .preamble => Cmd.preamble s.curValue
+  | .entry => Cmd.entry command s.curKey s.curFields
+
+def afterBody (body : Res Unit) (bodyEnd : Pat) : Res Unit :=
+  body.bind (fun _ s => (required [bodyEnd] (descOf [bodyEnd]) s).bind (fun _ s => .ok () s))
+
+/-- the `except PybtexSyntaxError: handle_error` of `parse_command` and `make_result()` -/
+def finish (ab : Res Unit) (mk : St → Cmd) : Res Cmd :=
+  match ab with
+  | .ok _ s => .ok (mk s) s
+  | .fail (.syn e) s =>
+    match handleError s e with
+    | .fail a s => .fail a s
+    | .ok _ s => .ok (mk s) s
+  | .fail a s => .fail a s
+
+def cmdTail (command : Str) (open_ : Pat) (s : St) : Res Cmd :=
+  if lower command = "comment".toList then .fail .skip s
+  else
+    finish (afterBody (cmdBody (cmdKind (lower command)) (decide (open_ = .lit '(')) s)
+        (if decide (open_ = .lit '(') then .lit ')' else .lit '}'))
+      (cmdMk (cmdKind (lower command)) command)
+
+@[reducible] def clr (s : St) : St :=
+  { s with curKey := none, curFields := [], curFieldName := none, curValue := [] }
+
+/-- the text of `parseCommand` behind the two `required` -/
+def cmdTail0 (command : Str) (open_ : Pat) (s : St) : Res Cmd :=
+  let paren := decide (open_ = .lit '(')
+  let bodyEnd : Pat := if paren then .lit ')' else .lit '}'
+  let cl := lower command
+  if cl = "comment".toList then .fail .skip s
+  else
+    let kind : CmdKind := if cl = "string".toList then .string else if cl = "preamble".toList then .preamble else .entry
+    let body : Res Unit :=
+      match kind with
+      | .string => parseStringBody s
+      | .preamble => parseValue s
+      | .entry => parseEntryBody paren s
+    let afterBody : Res Unit :=
+      match body with
+      | .fail e s => .fail e s
+      | .ok _ s =>
+        match required [bodyEnd] (descOf [bodyEnd]) s with
+        | .fail e s => .fail e s
+        | .ok _ s => .ok () s
+    let mk := fun (s : St) => match kind with
+      | .string => Cmd.string
+      | .preamble => Cmd.preamble s.curValue
+      | .entry => Cmd.entry command s.curKey s.curFields
+    match afterBody with
+    | .ok _ s => .ok (mk s) s
+    | .fail (.syn e) s =>
+      match handleError s e with
+      | .fail a s => .fail a s
+      | .ok _ s => .ok (mk s) s
+    | .fail a s => .fail a s
+
+theorem cmdTail0_eq (command : Str) (open_ : Pat) (s : St) :
+    cmdTail0 command open_ s = cmdTail command open_ s := by
+  unfold cmdTail0 cmdTail
+  simp only
+  split
+  · rfl
+  · simp only [cmdKind]
+    generalize (if lower command = "string".toList then CmdKind.string
+      else if lower command = "preamble".toList then CmdKind.preamble else CmdKind.entry) = kind
+    cases kind with
+    | string =>
+      simp only [cmdBody, cmdMk, afterBody, finish, Res.bind]
+      generalize parseStringBody s = body
+      cases body with
+      | fail a s1 => cases a <;> rfl
+      | ok u s1 =>
+        simp only
+        generalize required _ _ s1 = r
+        cases r with
+        | fail a s2 => cases a <;> rfl
+        | ok u2 s2 => rfl
+    | preamble =>
+      simp only [cmdBody, cmdMk, afterBody, finish, Res.bind]
+      generalize parseValue s = body
+      cases body with
+      | fail a s1 => cases a <;> rfl
+      | ok u s1 =>
+        simp only
+        generalize required _ _ s1 = r
+        cases r with
+        | fail a s2 => cases a <;> rfl
+        | ok u2 s2 => rfl
+    | entry =>
+      simp only [cmdBody, cmdMk, afterBody, finish, Res.bind]
+      generalize parseEntryBody _ s = body
+      cases body with
+      | fail a s1 => cases a <;> rfl
+      | ok u s1 =>
+        simp only
+        generalize required _ _ s1 = r
+        cases r with
+        | fail a s2 => cases a <;> rfl
+        | ok u2 s2 => rfl
+
+theorem parseCommand_eq (s : St) :
+    parseCommand s =
+      (required [.name] (descOf [.name]) (clr s)).bind (fun pc s1 =>
+        (required [.lit '(', .lit '{'] (descOf [.lit '(', .lit '{']) s1).bind (fun po s2 =>
+          cmdTail pc.2 po.1 s2)) := by
+  unfold parseCommand
+  simp only
+  cases required [.name] (descOf [.name]) (clr s) with
+  | fail a s1 => rfl
+  | ok pc s1 =>
+    obtain ⟨p, command⟩ := pc
+    simp only [Res.bind]
+    cases required [.lit '(', .lit '{'] (descOf [.lit '(', .lit '{']) s1 with
+    | fail a s2 => rfl
+    | ok po s2 =>
+      obtain ⟨open_, v⟩ := po
+      simp only
+      rw [← cmdTail0_eq]
+      rfl
+
+def Res.raisedP {α : Type} : Res α → Prop
+  | .fail (.raised _) _ => True
+  | _ => False
+
+/-- when does a run of `parse_command` carry over to the changed context: nothing was appended to
+the text, or it neither raised nor reported `PrematureEOF` (nor ran out of fuel), and an error
+that left it in strict mode was raised in front of an unread character -/
+def CmdLC {α : Type} (T : Tr) (r : Res α) : Prop :=
+  T.c = [] ∨ (¬ r.stop ∧ (∀ e ∈ r.st.errs, ¬ stopKind e.kind) ∧ (r.raisedP → r.st.rest ≠ []))
+
+theorem cmdBody_empty (kind : CmdKind) (paren : Bool) (s : St) (h : s.rest = []) :
+    (cmdBody kind paren s).stop := by
+  cases kind
+  · exact parseStringBody_empty s h
+  · exact parseValue_empty s h
+  · exact parseEntryBody_empty paren s h
+
+theorem cmdBody_T (T : Tr) (kind : CmdKind) (paren : Bool) (s : St) (hc : LC T (cmdBody kind paren s)) :
+    cmdBody kind paren (T.app s) = (cmdBody kind paren s).mapR T := by
+  cases kind
+  · exact parseStringBody_T T s hc
+  · exact parseValue_T T s hc
+  · exact parseEntryBody_T T paren s hc
+
+theorem cmdBody_skip_rest (kind : CmdKind) (paren : Bool) (s s' : St)
+    (h : cmdBody kind paren s = .fail .skip s') : s'.rest ≠ [] := by
+  cases kind with
+  | string => have := parseStringBody_noSkip s; simp only [cmdBody] at h; rw [h] at this; exact this.elim
+  | preamble => have := parseValue_noSkip s; simp only [cmdBody] at h; rw [h] at this; exact this.elim
+  | entry => exact parseEntryBody_skip_rest paren s s' h
+
+theorem LC.of_ok {α : Type} {T : Tr} {a : α} {s : St} (h : T.c = [] ∨ s.rest ≠ []) : LC T (Res.ok a s) :=
+  h.imp id (fun h => ⟨fun h => h, Or.inl h⟩)
+
+theorem afterBody_T (T : Tr) (kind : CmdKind) (paren : Bool) (bodyEnd : Pat) (s : St)
+    (hbe : bodyEnd.isLit)
+    (hc : LC T (afterBody (cmdBody kind paren s) bodyEnd) ∨
+      ∃ s4, afterBody (cmdBody kind paren s) bodyEnd = .ok () s4) :
+    afterBody (cmdBody kind paren (T.app s)) bodyEnd = (afterBody (cmdBody kind paren s) bodyEnd).mapR T := by
+  have hl : ∀ q ∈ [bodyEnd], q.isLit := by
+    intro q hq; simp only [List.mem_singleton] at hq; subst hq; exact hbe
+  unfold afterBody at hc ⊢
+  cases hb : cmdBody kind paren s with
+  | fail a s' =>
+    rw [hb] at hc
+    rcases hc with hc | ⟨s4, hc⟩
+    · rw [cmdBody_T T kind paren s (by rw [hb]; exact hc.fail_cast), hb]; rfl
+    · cases hc
+  | ok u s3 =>
+    rw [hb] at hc
+    simp only [Res.bind] at hc
+    cases hr : required [bodyEnd] (descOf [bodyEnd]) s3 with
+    | fail a s' =>
+      rw [hr] at hc
+      rcases hc with hc | ⟨s4, hc⟩
+      · have h3 : T.c = [] ∨ s3.rest ≠ [] := by
+          rcases hc with hc | hc
+          · exact Or.inl hc
+          · right; intro he
+            have := required_empty [bodyEnd] (descOf [bodyEnd]) s3 he
+            rw [hr] at this
+            apply hc.1
+            cases a <;> exact this
+        rw [cmdBody_T T kind paren s (by rw [hb]; exact LC.of_ok h3), hb]
+        simp only [Res.mapR, Res.bind]
+        rw [required_T T _ _ s3 (Or.inl (by rw [hr]; exact hc.fail_cast)), hr]
+        rfl
+      · cases hc
+    | ok x s4 =>
+      have h3 : s3.rest ≠ [] := by
+        intro he
+        have := required_empty [bodyEnd] (descOf [bodyEnd]) s3 he
+        rw [hr] at this
+        exact this
+      rw [cmdBody_T T kind paren s (by rw [hb]; exact LC.of_ok (Or.inr h3)), hb]
+      simp only [Res.mapR, Res.bind]
+      rw [required_T T _ _ s3 (Or.inr ⟨hl, by rw [hr]; exact fun h => h⟩), hr]
+      rfl
+
+theorem finish_T (T : Tr) (ab : Res Unit) (mk : St → Cmd) (hmk : ∀ s, mk (T.app s) = mk s) :
+    finish (ab.mapR T) mk = (finish ab mk).mapR T := by
+  cases ab with
+  | ok u s => simp only [Res.mapR, finish, hmk]
+  | fail a s =>
+    cases a with
+    | syn e =>
+      simp only [Res.mapR, finish, Tr.ab]
+      rw [handleError_T]
+      cases handleError s e with
+      | ok u s' => simp only [Res.mapR, hmk]
+      | fail a s' => rfl
+    | skip => rfl
+    | raised e => rfl
+
+theorem cmdMk_T (T : Tr) (kind : CmdKind) (command : Str) (s : St) :
+    cmdMk kind command (T.app s) = cmdMk kind command s := by
+  cases kind <;> rfl
+
+theorem cmdTail_T (T : Tr) (command : Str) (open_ : Pat) (s : St)
+    (hc : CmdLC T (cmdTail command open_ s)) :
+    cmdTail command open_ (T.app s) = (cmdTail command open_ s).mapR T := by
+  unfold cmdTail at hc ⊢
+  split
+  · rfl
+  · rename_i hcm
+    rw [if_neg hcm] at hc
+    have hbe : (if decide (open_ = .lit '(') then Pat.lit ')' else Pat.lit '}').isLit := by
+      split <;> trivial
+    rw [afterBody_T T _ _ _ s hbe, finish_T T _ _ (cmdMk_T T _ _)]
+    rcases hc with hc | ⟨hns, herr, hra⟩
+    · exact Or.inl (Or.inl hc)
+    · generalize hab : afterBody (cmdBody (cmdKind (lower command)) (decide (open_ = .lit '(')) s)
+        (if decide (open_ = .lit '(') then Pat.lit ')' else Pat.lit '}') = ab at hns herr hra
+      cases ab with
+      | ok u s4 => cases u; exact Or.inr ⟨s4, rfl⟩
+      | fail a s' =>
+        left; right
+        cases a with
+        | syn e =>
+          refine ⟨?_, Or.inr trivial⟩
+          show ¬ stopKind e.kind
+          simp only [finish, handleError] at hns herr
+          cases hst : s'.strict with
+          | true =>
+            rw [hst] at hns
+            simp only [↓reduceIte] at hns
+            exact hns
+          | false =>
+            rw [hst] at herr
+            simp only [Bool.false_eq_true, ↓reduceIte] at herr
+            exact herr e (by simp [Res.st])
+        | skip =>
+          refine ⟨fun h => h, Or.inl ?_⟩
+          unfold afterBody at hab
+          cases hb : cmdBody (cmdKind (lower command)) (decide (open_ = .lit '(')) s with
+          | fail a s1 =>
+            rw [hb] at hab
+            simp only [Res.bind] at hab
+            cases hab
+            exact cmdBody_skip_rest _ _ _ _ hb
+          | ok u s1 =>
+            rw [hb] at hab
+            simp only [Res.bind] at hab
+            have := required_noSkip [if decide (open_ = .lit '(') then Pat.lit ')' else Pat.lit '}']
+              (descOf [if decide (open_ = .lit '(') then Pat.lit ')' else Pat.lit '}']) s1
+            cases hr : required [if decide (open_ = .lit '(') then Pat.lit ')' else Pat.lit '}']
+              (descOf [if decide (open_ = .lit '(') then Pat.lit ')' else Pat.lit '}']) s1 with
+            | fail a s2 =>
+              rw [hr] at hab this
+              cases hab
+              exact this.elim
+            | ok x s2 => rw [hr] at hab; cases hab
+        | raised e => exact ⟨hns, Or.inl (hra trivial)⟩
+
+theorem parseCommand_T (T : Tr) (s : St) (hc : CmdLC T (parseCommand s)) :
+    parseCommand (T.app s) = (parseCommand s).mapR T := by
+  rw [parseCommand_eq] at hc ⊢
+  rw [parseCommand_eq]
+  have hclr : clr (T.app s) = T.app (clr s) := rfl
+  rw [hclr]
+  have hl : ∀ q ∈ [Pat.lit '(', Pat.lit '{'], q.isLit := by
+    intro q hq
+    simp only [List.mem_cons, List.not_mem_nil, or_false] at hq
+    rcases hq with rfl | rfl <;> trivial
+  -- a failure of one of the two `required` is the result of `parseCommand`
+  have hfail : ∀ {β : Type} (a : Abort) (s' : St) (r : Res β), r = .fail a s' → NoSkip r →
+      CmdLC T (Res.fail a s' : Res Cmd) → LC T r := by
+    intro β a s' r hr hsk hc
+    subst hr
+    rcases hc with hc | ⟨hns, _, hra⟩
+    · exact Or.inl hc
+    · right
+      cases a with
+      | syn e => exact ⟨hns, Or.inr trivial⟩
+      | skip => exact hsk.elim
+      | raised e => exact ⟨hns, Or.inl (hra trivial)⟩
+  cases h1 : required [.name] (descOf [.name]) (clr s) with
+  | fail a s1 =>
+    rw [h1] at hc
+    rw [required_T T _ _ _ (Or.inl (hfail a s1 _ h1 (required_noSkip _ _ _) hc)), h1]
+    rfl
+  | ok pc s1 =>
+    rw [h1] at hc
+    simp only [Res.bind] at hc
+    cases h2 : required [.lit '(', .lit '{'] (descOf [.lit '(', .lit '{']) s1 with
+    | fail a s2 =>
+      rw [h2] at hc
+      have hl2 := hfail a s2 _ h2 (required_noSkip _ _ _) hc
+      have h1r : T.c = [] ∨ s1.rest ≠ [] := by
+        rcases hl2 with hl2 | hl2
+        · exact Or.inl hl2
+        · right; intro he
+          have := required_empty [.lit '(', .lit '{'] (descOf [.lit '(', .lit '{']) s1 he
+          exact hl2.1 this
+      rw [required_T T _ _ _ (Or.inl (by rw [h1]; exact LC.of_ok h1r)), h1]
+      simp only [Res.mapR, Res.bind]
+      rw [required_T T _ _ _ (Or.inl hl2), h2]
+      rfl
+    | ok po s2 =>
+      rw [h2] at hc
+      simp only at hc
+      have h1r : s1.rest ≠ [] := by
+        intro he
+        have := required_empty [.lit '(', .lit '{'] (descOf [.lit '(', .lit '{']) s1 he
+        rw [h2] at this
+        exact this
+      rw [required_T T _ _ _ (Or.inl (by rw [h1]; exact LC.of_ok (Or.inr h1r))), h1]
+      simp only [Res.mapR, Res.bind]
+      rw [required_T T _ _ _ (Or.inr ⟨hl, by rw [h2]; exact fun h => h⟩), h2]
+      simp only [Res.mapR]
+      exact cmdTail_T T _ _ s2 hc
+
+/-! ## §6 processing a command -/
+
+theorem handleError_T_data (T : Tr) (s : St) (k : ErrKind) :
+    handleError (T.app s) ⟨k, none⟩ = (handleError s ⟨k, none⟩).mapR T :=
+  handleError_T T s ⟨k, none⟩
+
+theorem addPersons_T (T : Tr) (role : Str) (ns : List Str) (e : Entry) (s : St) :
+    addPersons role ns e (T.app s) = (addPersons role ns e s).mapR T := by
+  induction ns generalizing e s with
+  | nil => rfl
+  | cons n ns ih =>
+    unfold addPersons
+    cases mkPerson n [] [] [] [] [] with
+    | error x => rfl
+    | ok pt =>
+      obtain ⟨p, tooMany⟩ := pt
+      simp only
+      cases tooMany with
+      | false => simp only [Bool.false_eq_true, ↓reduceIte]; exact ih _ s
+      | true =>
+        simp only [↓reduceIte]
+        rw [handleError_T_data]
+        cases handleError s ⟨.invalidName (strip n), none⟩ with
+        | fail a s' => rfl
+        | ok u s' => simp only [Res.mapR]; exact ih _ s'
+
+theorem processFields_T (T : Tr) (key : Str) (fs : List (Str × List Str)) (seen : List Str) (e : Entry) (s : St) :
+    processFields key fs seen e (T.app s) = (processFields key fs seen e s).mapR T := by
+  induction fs generalizing seen e s with
+  | nil => rfl
+  | cons f fs ih =>
+    obtain ⟨name, parts⟩ := f
+    unfold processFields
+    split
+    · rw [handleError_T_data]
+      cases handleError s ⟨.duplicateField key name, none⟩ with
+      | fail a s' => rfl
+      | ok u s' => simp only [Res.mapR]; exact ih _ _ s'
+    · simp only
+      have hr : (T.app s).roles = s.roles := rfl
+      rw [hr]
+      split
+      · rw [addPersons_T]
+        cases addPersons name (splitNameList (normalizeWs parts.flatten)) e s with
+        | fail a s' => rfl
+        | ok e' s' => simp only [Res.mapR]; exact ih _ _ s'
+      · exact ih _ _ s
+
+def errRep (key : Str) : Err := ⟨.repeatedEntry key, none⟩
+
+/-- the inserted entries block `key` -/
+def Tr.blocks (T : Tr) (key : Str) : Bool := T.l.any fun e => lower e.key = lower key
+
+/-- the run that produced `r` did not report (behind position `m` of the problem list) or raise a
+repeated-entry error for a key of the inserted entries -/
+def NoClashR {α : Type} (T : Tr) (m : Nat) (r : Res α) : Prop :=
+  ∀ key, T.blocks key = true → errRep key ∉ r.st.errs.drop m ∧ ∀ s', r ≠ .fail (.raised (errRep key)) s'
+
+theorem hasEntry_T (T : Tr) (db : Db) (key : Str) :
+    hasEntry (T.db db) key = (hasEntry db key || T.blocks key) := by
+  unfold hasEntry Tr.blocks
+  show (db.entries.take T.n ++ T.l ++ db.entries.drop T.n).any _ = _
+  have : db.entries.any (fun e => decide (lower e.key = lower key)) =
+      ((db.entries.take T.n).any (fun e => decide (lower e.key = lower key)) ||
+       (db.entries.drop T.n).any (fun e => decide (lower e.key = lower key))) := by
+    rw [← List.any_append, List.take_append_drop]
+  rw [this, List.any_append, List.any_append]
+  cases (db.entries.take T.n).any (fun e => decide (lower e.key = lower key)) <;>
+    cases (db.entries.drop T.n).any (fun e => decide (lower e.key = lower key)) <;>
+    cases T.l.any (fun e => decide (lower e.key = lower key)) <;> rfl
+
+theorem T_addEntry (T : Tr) (db : Db) (e : Entry) (hn : T.n ≤ db.entries.length) :
+    T.db { db with entries := db.entries ++ [e] } = { T.db db with entries := (T.db db).entries ++ [e] } := by
+  show ({ db with entries := (db.entries ++ [e]).take T.n ++ T.l ++ (db.entries ++ [e]).drop T.n,
+                  preamble := T.Pr ++ db.preamble } : Db) =
+    { db with entries := db.entries.take T.n ++ T.l ++ db.entries.drop T.n ++ [e], preamble := T.Pr ++ db.preamble }
+  rw [List.take_append_of_le_length hn, List.drop_append_of_le_length hn]
+  simp only [List.append_assoc]
+
+theorem mem_drop_append_last {α : Type} (l : List α) (x : α) (m : Nat) (h : m ≤ l.length) :
+    x ∈ (l ++ [x]).drop m := by
+  rw [List.drop_append_of_le_length h]
+  simp
+
+theorem addEntry_T (T : Tr) (m : Nat) (s : St) (key : Str) (e : Entry)
+    (hn : T.n ≤ s.db.entries.length) (hm : m ≤ (T.app s).errs.length)
+    (hk : NoClashR T m (addEntry (T.app s) key e)) :
+    addEntry (T.app s) key e = (addEntry s key e).mapR T := by
+  unfold addEntry at hk ⊢
+  have hw : wantEntry (T.app s).db key = wantEntry s.db key := rfl
+  have hh : hasEntry (T.app s).db key = (hasEntry s.db key || T.blocks key) := hasEntry_T T s.db key
+  rw [hw, hh] at hk ⊢
+  cases hwk : wantEntry s.db key with
+  | false => rfl
+  | true =>
+    rw [hwk] at hk
+    simp only [Bool.not_true, Bool.false_eq_true, ↓reduceIte] at hk ⊢
+    cases hhe : hasEntry s.db key with
+    | true =>
+      simp only [Bool.true_or, ↓reduceIte]
+      exact handleError_T_data T s _
+    | false =>
+      rw [hhe] at hk
+      simp only [Bool.false_or] at hk ⊢
+      cases hb : T.blocks key with
+      | true =>
+        exfalso
+        rw [hb] at hk
+        simp only [↓reduceIte] at hk
+        obtain ⟨h1, h2⟩ := hk key hb
+        unfold handleError at h1 h2
+        cases hst : (T.app s).strict with
+        | true =>
+          rw [hst] at h2
+          simp only [↓reduceIte] at h2
+          exact h2 _ rfl
+        | false =>
+          rw [hst] at h1
+          simp only [Bool.false_eq_true, ↓reduceIte, Res.st] at h1
+          exact h1 (mem_drop_append_last _ _ m hm)
+      | false =>
+        simp only [Bool.false_eq_true, ↓reduceIte]
+        have hck : canonicalKey (T.app s).db key = canonicalKey s.db key := rfl
+        rw [hck]
+        simp only [Res.mapR]
+        congr 1
+        apply St.ext' <;> try rfl
+        show (match findFieldCI e.fields "crossref".toList, (T.db s.db).wanted with
+          | some cr, some w => _
+          | _, _ => _) = T.db (match findFieldCI e.fields "crossref".toList, s.db.wanted with
+          | some cr, some w => _
+          | _, _ => _)
+        have hwd : (T.db s.db).wanted = s.db.wanted := rfl
+        rw [hwd]
+        have := T_addEntry T s.db { e with key := canonicalKey s.db key } hn
+        split
+        · rename_i cr w h1 h2
+          simp only [this]
+        · exact this.symm
+
 end Pybtex.Bib
